@@ -5,6 +5,7 @@ import os
 import re
 import subprocess
 
+from . import proc
 from .weave import REPO
 
 _KANI_CACHE = {}
@@ -16,8 +17,10 @@ def _run(env_extra, timeout=1500):
     env.update(env_extra)
     env['CARGO_NET_OFFLINE'] = 'true'
     cmd = ['cargo', 'test', '--offline', '--features', 'verif', '--lib', 'verif_rac', '--', '--nocapture', '--test-threads', '1']
-    p = subprocess.run(cmd, cwd=REPO, env=env, stdout=subprocess.PIPE, stderr=subprocess.STDOUT, timeout=timeout)
-    out = p.stdout.decode(errors='replace')
+    # own process group: a timeout must also end the test binary (a changed loop may not terminate), not only cargo
+    out, _, rc, timed_out = proc.run(cmd, timeout, cwd=REPO, env=env, merge_stderr=True)
+    if timed_out:
+        return dict(rc=rc, fails=[], ok=False, stats=None, tail='probe timed out after %ds' % timeout, cmd=' '.join(cmd))
     fails = []
     ok = False
     stats = None
@@ -36,7 +39,7 @@ def _run(env_extra, timeout=1500):
                 stats = json.loads(m.group(1))
             except Exception:
                 pass
-    return dict(rc=p.returncode, fails=fails, ok=ok, stats=stats, tail=out[-3000:], cmd=' '.join(cmd))
+    return dict(rc=rc, fails=fails, ok=ok, stats=stats, tail=out[-3000:], cmd=' '.join(cmd))
 
 
 def bounded(pid):
